@@ -221,7 +221,7 @@ def write_side(side_dir, stem, data, damage, ext_hint=None):
         if damage == "missing":
             return path
         if damage == "unsupported":
-            path = os.path.join(side_dir, stem + ".dat")
+            path = os.path.join(side_dir, stem + ".tbl")
             write_table(data, path)
             return path
         if damage == "garbage":
@@ -241,7 +241,7 @@ def write_side(side_dir, stem, data, damage, ext_hint=None):
                 fh.write(txt[: max(20, len(txt) // 2)] if damage == "truncated" else b"hello world")
         if damage == "unsupported":
             # table content under an extension nobody knows
-            p2 = os.path.join(side_dir, stem + ".dat")
+            p2 = os.path.join(side_dir, stem + ".tbl")
             os.replace(path, p2)
             with open(p2, "w") as fh:
                 fh.write("a,b\n1,2\n")
@@ -516,10 +516,11 @@ def cli_line(op: str, m: dict) -> str:
 # ---------------------------------------------------------------- independent Python evaluation of C04
 
 def py_parse_tols(toks, dyn):
-    """-> (named dict name -> (kind, value), default) or None when an argument is rejected; 'exotic' -> 'X'"""
+    """-> (named dict name -> (kind, value), default);  None when an argument is rejected (ValueError);
+    "X" when all are accepted but one is exotic (negative / inf / nan)"""
     if toks is None:
         return {}, None
-    named, dflt = {}, None
+    named, dflt, exotic = {}, None, False
     for s in toks:
         k = s.count(":")
         if k > 1:
@@ -533,12 +534,13 @@ def py_parse_tols(toks, dyn):
         except ValueError:
             return None
         if math.isnan(x) or math.isinf(x) or x < 0:
-            return "X"
+            exotic = True
+            continue
         if name is None:
             dflt = (kind, x)
         else:
             named[name] = (kind, x)
-    return named, dflt
+    return "X" if exotic else (named, dflt)
 
 
 def py_tol_for(parsed, name):
@@ -658,13 +660,17 @@ def py_eval(sc) -> dict:
     rt, at_ = py_parse_tols(sc["rtol"], False), py_parse_tols(sc["atol"], True)
     if rt is None or at_ is None:
         return {"exit": "nz", "f5": True}
-    if rt == "X" or at_ == "X":
-        return {"exit": None, "f5": None}
     if sc["damage"][0] is not None or sc["damage"][1] is not None or _unknown_reader(sc):
         return {"exit": "nz", "f5": True}
     res, ref = sc["res"], sc["ref"]
     if (res["kind"] == "seq") != (ref["kind"] == "seq"):
         return {"exit": "nz", "f5": True}
+    if rt == "X" or at_ == "X":
+        # exotic tolerance values: only what does not depend on tolerances is decided
+        if res["kind"] != "seq" and (res["kind"] != ref["kind"] or
+                                     (res["kind"] == "table" and res["rows"] != ref["rows"])):
+            return {"exit": "nz", "f5": True}
+        return {"exit": None, "f5": None}
     if res["kind"] != "seq":
         e = _pair_eval(sc, res, ref, rt, at_)
         if e.get("exc") or e["domain"] is False:
@@ -950,8 +956,8 @@ def gen_csv_scenario(rng):
         tags.append("damage-badreader")
     elif r < 0.17 and not sc["read_as"]:
         # tables under an unknown extension, made readable by --read-as
-        sc["ext"] = ".dat"
-        sc["read_as"] = [rng.choice([DSV_READER + ":*.dat", "dsv:*.dat", DSV_READER])]
+        sc["ext"] = ".tbl"
+        sc["read_as"] = [rng.choice([DSV_READER + ":*.tbl", "dsv:*.tbl", DSV_READER])]
         tags.append("read-as-ext")
     return sc, tags
 
@@ -1103,3 +1109,210 @@ def gen_scenario(rng):
     if r < 0.96:
         return gen_seq_scenario(rng)
     return gen_misc_scenario(rng)
+
+
+# ---------------------------------------------------------------- directory mode (C20)
+
+DIR_NAMES = ["a", "b", "c", "d1", "e_x", "f"]
+
+
+def gen_dir_scenario(rng):
+    """{"opts": file-scenario-like option dict, "ims"/"imr": ignore-missing-*-files, "incl_files"/"excl_files",
+        "files": [{"rel", "where": "both"|"res"|"ref", "sc": file scenario | None}]}"""
+    names = list(CSV_NAMES)
+    opts = {"rtol": gen_tokens(rng, names, "rtol"), "atol": gen_tokens(rng, names, "atol"),
+            "flags": {"ign_src": rng.random() < 0.3, "ign_ref": rng.random() < 0.3, "ign_seq": rng.random() < 0.1},
+            "incl": gen_patterns(rng, names[:4]), "excl": gen_patterns(rng, names[:4]) if rng.random() < 0.4 else None,
+            "read_as": rng.choice([None, [DSV_READER], [DSV_READER], ["dsv:*.tbl"], [DSV_READER + ":*.tbl"]])}
+    d = {"opts": opts, "ims": rng.random() < 0.4, "imr": rng.random() < 0.4,
+         "incl_files": rng.choice([None, None, None, ["*.csv"], ["*a*", "*b*", "sub/*"]]),
+         "excl_files": rng.choice([None, None, None, ["*b*"], ["sub/*"], ["*.tbl", "c*"]]), "files": []}
+    tags = ["dir"]
+    used = set()
+    for _ in range(rng.choice([0, 1, 2, 3, 4, 5])):
+        stem = rng.choice(DIR_NAMES)
+        sub = rng.choice(["", "", "sub/", "sub/deep/"])
+        where = rng.choice(["both", "both", "both", "both", "res", "ref"])
+        ext = rng.choice([".csv", ".csv", ".csv", ".tbl"])
+        rel = sub + stem + ext
+        if rel in used:
+            continue
+        used.add(rel)
+        if where != "both":
+            d["files"].append({"rel": rel, "where": where, "sc": None})
+            tags.append("file-onesided")
+            continue
+        ref = gen_table(rng, sniffable=True)
+        res = copy.deepcopy(ref)
+        sc = dict(copy.deepcopy(opts), kind="csv", damage=[None, None], res=res, ref=ref, ext=ext)
+        ft = []
+        apply_field_edits(rng, sc, res, ref, ft)
+        if rng.random() < 0.12:
+            res["rows"] += 1
+            for c in res["cols"]:
+                c["v"].append(c["v"][-1])
+            ft.append("edit-rows")
+        if rng.random() < 0.08 and not opts["read_as"] and ext == ".csv":
+            sc["damage"][rng.randrange(2)] = "garbage"
+            ft.append("damage-garbage")
+        tags += ["file-" + t for t in ft] + ["file-both" + ext]
+        d["files"].append({"rel": rel, "where": "both", "sc": sc})
+    return d, tags
+
+
+def dir_categories(d):
+    """ground truth of `_categorize_files` from what the harness creates (relative names)"""
+    def consider(rel):
+        inc = True if d["incl_files"] is None else any(fnmatch.fnmatch(rel, p) for p in d["incl_files"])
+        exc = False if d["excl_files"] is None else any(fnmatch.fnmatch(rel, p) for p in d["excl_files"])
+        return inc and not exc
+
+    def mapped(rel):
+        for r in d["opts"]["read_as"] or []:
+            pat = r[len(DSV_READER) + 1:] if r.startswith(DSV_READER) else r[4:]
+            if fnmatch.fnmatch(rel, pat or "*"):
+                return True
+        return False
+    cat = {"compared": [], "missing_src": [], "missing_ref": [], "unsupported": [], "discarded": []}
+    for f in d["files"]:
+        rel = f["rel"]
+        if f["where"] == "both":
+            if not consider(rel):
+                cat["discarded"].append(rel)
+            elif rel.endswith(".csv") or mapped(rel):
+                cat["compared"].append(f)
+            else:
+                cat["unsupported"].append(rel)
+        elif consider(rel):
+            cat["missing_src" if f["where"] == "ref" else "missing_ref"].append(rel)
+    return cat
+
+
+def dir_argv(d, resdir, refdir, jp):
+    a = ["dir", resdir, refdir] + option_argv(dict(d["opts"]))
+    if d["ims"]:
+        a.append("--ignore-missing-source-files")
+    if d["imr"]:
+        a.append("--ignore-missing-reference-files")
+    for p in d["incl_files"] or []:
+        a += ["--include-files", p]
+    for p in d["excl_files"] or []:
+        a += ["--exclude-files", p]
+    return a + ["--junit-xml", jp]
+
+
+def run_dir_scenario(d, wd: Workdir) -> dict:
+    base = wd.fresh()
+    try:
+        resdir, refdir = os.path.join(base, "res"), os.path.join(base, "ref")
+        os.makedirs(resdir)
+        os.makedirs(refdir)
+        readok = True
+        for f in d["files"]:
+            rel = f["rel"]
+            stem, ext = os.path.splitext(os.path.basename(rel))
+            sub = os.path.dirname(rel)
+            if f["sc"] is None:
+                side = resdir if f["where"] == "res" else refdir
+                os.makedirs(os.path.join(side, sub), exist_ok=True)
+                with open(os.path.join(side, rel), "w") as fh:
+                    fh.write("u,v\n1.0,2\n2.0,3\n")
+                continue
+            sc = f["sc"]
+            p1 = write_side(os.path.join(resdir, sub), stem, sc["res"], sc["damage"][0], ext)
+            p2 = write_side(os.path.join(refdir, sub), stem, sc["ref"], sc["damage"][1], ext)
+            # only files that will be read need to read back correctly
+            if f in dir_categories(d)["compared"] and not read_check(sc, p1, p2):
+                readok = False
+        jp = os.path.join(base, "report.xml")
+        out, rep = run_cli(dir_argv(d, resdir, refdir, jp), jp)
+        return {"out": out, "rep": rep, "resdir": resdir, "readok": readok}
+    finally:
+        wd.drop(base)
+
+
+def dir_line(d, resdir) -> str:
+    cat = dir_categories(d)
+    o = d["opts"]
+    files = []
+    for f in cat["compared"]:
+        sc = dict(f["sc"])
+        sc["flags"] = dict(sc["flags"], force_seq=False)
+        m = abstract(sc, path_parts(os.path.join(resdir, f["rel"])))
+        files.append(f"{esc(f['rel'])} {enc_scenario(m)}")
+
+    def names(l):
+        return " ".join([str(len(l))] + [esc(x) for x in l])
+    return " ".join(["junitdir", float_table([o["rtol"], o["atol"]]), _enc_optstrs(o["rtol"]), _enc_optstrs(o["atol"]),
+                     "1" if d["ims"] else "0", "1" if d["imr"] else "0", str(len(files))] + files +
+                    [names(cat["missing_src"]), names(cat["missing_ref"]), names(cat["unsupported"]),
+                     names(cat["discarded"])])
+
+
+def parse_model_report(s: str):
+    """`<exit>;<report>` of the driver -> (exit class, None | [] | sorted canonical suites)"""
+    ex, _, rep = s.partition(";")
+    if rep == "none":
+        return ex, None
+    if rep == "empty":
+        return ex, []
+    suites = []
+    for part in rep.split("/"):
+        name, counts, cases = part.split("|")
+        cs_ = sorted([unesc(c.rsplit(":", 1)[0]), c.rsplit(":", 1)[1]] for c in cases.split(";")) if cases else []
+        suites.append([unesc(name), [int(x) for x in counts.split(",")], cs_])
+    return ex, sorted(suites)
+
+
+def py_report_check(oc: str, rep):
+    """what C20 demands of (exit class, parsed report), evaluated on the implementation's observables:
+    -> list of violated clauses (empty = holds)"""
+    bad = []
+    if rep == "malformed":
+        return ["report is not well-formed"]
+    if rep is None:
+        return ["no report file was written"]
+    shows = False
+    for name, counts, cases in rep:
+        kinds = [k for _, k in cases]
+        if counts != [len(cases), kinds.count("failure"), kinds.count("error"), kinds.count("skipped")]:
+            bad.append(f"counts of suite {name!r} do not match its test cases")
+        shows = shows or ("failure" in kinds or "error" in kinds)
+    if (oc != "0") != shows:
+        bad.append("exit status non-zero but no failure/error in the report" if oc != "0"
+                   else "exit status zero but the report shows a failure/error")
+    return bad
+
+
+def py_expected_skipped(sc):
+    """sorted names the property wants to see skipped (single pair or sequence, all domains decided), else None"""
+    ev = py_eval(sc)
+    if ev["exit"] is None and ev["f5"] is None:
+        return None
+    rt, at_ = py_parse_tols(sc["rtol"], False), py_parse_tols(sc["atol"], True)
+    if rt in (None, "X") or at_ in (None, "X") or sc["damage"] != [None, None] or _unknown_reader(sc):
+        return None
+    res, ref = sc["res"], sc["ref"]
+    if (res["kind"] == "seq") != (ref["kind"] == "seq"):
+        return None
+    if res["kind"] == "seq":
+        n, m = len(res["steps"]), len(ref["steps"])
+        if n != m and not sc["flags"].get("ign_seq") and not sc["flags"].get("force_seq"):
+            return []
+        pairs = list(zip(res["steps"], ref["steps"]))
+    else:
+        pairs = [(res, ref)]
+    out = []
+    for a, b in pairs:
+        e = _pair_eval(sc, a, b, rt, at_)
+        if e.get("exc") or e["domain"] is None:
+            return None
+        if e["domain"] is False:
+            continue
+        rn, fn = [n for n, _ in data_fields(a)], [n for n, _ in data_fields(b)]
+        if sc["flags"].get("ign_src"):
+            out += [n for n in fn if n not in rn]
+        if sc["flags"].get("ign_ref"):
+            out += [n for n in rn if n not in fn]
+        out += [n for n in rn if n in fn and not _selected(sc, n)]
+    return sorted(out)
